@@ -2,6 +2,7 @@ package kit
 
 import (
 	"bytes"
+	"context"
 	"fmt"
 	"reflect"
 	"runtime"
@@ -98,7 +99,18 @@ func (e *Entry) onClose() error {
 	w.CloseLog = append(w.CloseLog, e)
 	err := w.CloseErr[e.Serial]
 	if err == nil && w.CloseFailRegs[e.Reg] {
-		err = fmt.Errorf("injected-close-error-r%d", e.Reg)
+		// what a Close reports varies: a plain error, or one that wraps an error value
+		// the container itself knows and could be tempted to treat as "nothing happened"
+		switch e.Reg % 4 {
+		case 1:
+			err = fmt.Errorf("injected-close-error-r%d: flush: %w", e.Reg, context.Canceled)
+		case 2:
+			err = fmt.Errorf("injected-close-error-r%d: %w", e.Reg, context.DeadlineExceeded)
+		case 3:
+			err = fmt.Errorf("injected-close-error-r%d: %w", e.Reg, godi.ErrScopeDisposed)
+		default:
+			err = fmt.Errorf("injected-close-error-r%d", e.Reg)
+		}
 	}
 	w.mu.Unlock()
 	return err
@@ -361,7 +373,7 @@ func (w *World) Service(r *Reg) any {
 		return c
 	}
 	w.mu.Unlock()
-	if r.Kind == KindEmbed && !embedShapeOK(r) {
+	if (r.Kind == KindEmbed && !embedShapeOK(r)) || (r.Kind == KindTwin && !twinShapeOK(r)) {
 		// something added to or changed the dependencies after generation (planted defects,
 		// extra built-ins): the fixed signature no longer fits, use a synthesised constructor
 		r.Kind = KindMakeFunc
